@@ -364,6 +364,13 @@ func visitInstr(fr *frame, instr ssa.Instruction) continuation {
 			fr.env[instr] = x[boundedIndex(idx, int64(len(x)), "index out of range")]
 		case sstr:
 			fr.env[instr] = x.b[boundedIndex(idx, int64(len(x.b)), "index out of range")]
+		case lazyStr:
+			n := x.lazyLen()
+			inr := andV(binop(token.LEQ, types.Typ[types.Int], 0, idx), binop(token.LSS, types.Typ[types.Int], idx, n))
+			if !eng.truth(inr) {
+				panic("runtime error: index out of range")
+			}
+			fr.env[instr] = x.lazyByte()
 		default:
 			panic(fmt.Sprintf("unexpected x type in Index: %T", x))
 		}
@@ -560,6 +567,9 @@ func runFrame(fr *frame) {
 		fr.panic = recover()
 		switch fr.panic.(type) {
 		case inconclusive, pathEnd:
+			if debugOn {
+				debugf("  unwinding %T through %s", fr.panic, fr.fn.String())
+			}
 			panic(fr.panic) // engine control flow: never visible to the target program
 		}
 		if eng.lastPanicFn == "" {
